@@ -284,6 +284,9 @@ def generate(repo=REPO, out=OUT):
     a.append("/-- the payload-free variants of `enum Unit` except `None` (mod.rs:10) -/")
     a.append("inductive KU where\n" + "\n".join(f"  | {v}" for v in known) + "\n  deriving DecidableEq, Repr, Inhabited\n")
     a.append("def KU.all : List KU := [" + ", ".join("." + v for v in known) + "]\n")
+    a.append("/-- position in the enum: table lookups compare these naturals (fast in the kernel) -/")
+    a.append("def KU.idx : KU → Nat\n" + "\n".join(f"  | .{v} => {i}" for i, v in enumerate(known)) + "\n")
+    a.append("def KU.ofIdx : Nat → KU\n" + "\n".join(f"  | {i} => .{v}" for i, v in enumerate(known)) + f"\n  | _ => .{known[0]}\n")
     a.append("/-- `enum UnitKind` (mod.rs:125) -/")
     a.append("inductive Kind where\n" + "\n".join(f"  | {lk(k)}" for k in mod["kinds"]) + "\n  deriving DecidableEq, Repr, Inhabited\n")
     a.append("/-- `Unit::kind` (mod.rs:191) on the payload-free variants -/")
@@ -302,11 +305,18 @@ def generate(repo=REPO, out=OUT):
     b = []
     b.append("import Grass.Generated.UnitKinds")
     b.append("/- GENERATED by tools/translate_units.py from crates/compiler/src/unit/conversion.rs — do not edit.")
-    b.append("   `(to, from, e)`: UNIT_CONVERSION_TABLE[to][from] = e, the value in `to` of one `from`. -/")
+    b.append("   `tableRow to` lists `(from, e)`: UNIT_CONVERSION_TABLE[to][from] = e, the value in `to` of one `from`. -/")
     b.append("namespace Grass.Generated\n")
-    b.append("def tableEntries : List (KU × KU × CExpr) := [")
-    b.append(",\n".join(f"  (.{to}, .{frm}, {lean_expr(tree)})   /- {text} -/" for to, frm, tree, text in entries))
-    b.append("]\n")
+    b.append("/-- one row per `m.insert(Unit::To, from_to)`: the inner map, in insertion order -/")
+    b.append("def tableRow : KU → List (KU × CExpr)")
+    rows = {}
+    for to, frm, tree, text in entries:
+        rows.setdefault(to, []).append((frm, tree, text))
+    for to, row in rows.items():
+        b.append(f"  | .{to} => [\n" + ",\n".join(f"      (.{frm}, {lean_expr(tree)})   /- {text} -/" for frm, tree, text in row) + "]")
+    if len(rows) < len(known):
+        b.append("  | _ => []")
+    b.append("")
     b.append("end Grass.Generated")
     os.makedirs(out, exist_ok=True)
     changed = False
